@@ -872,7 +872,15 @@ pub fn digests(tx: &Transaction, coins: &[Coin], inputs: &[usize]) -> Digests {
         for &i in inputs {
             for ht in wire::HASH_TYPES {
                 let st = SighashType::parse(ht).expect("valid hash type");
-                let si = zcash_transparent::sighash::SignableInput::from_parts(b, st, i, &ctx.scripts[i], &ctx.scripts[i], ctx.amounts[i]).expect("index in range");
+                // ZIP 244 commits to the scriptPubKey of the coin, ZIP 143/243 to the script code: the
+                // other argument gets a decoy so that a mix-up of the two is observable.
+                let decoy = {
+                    let mut v = ctx.scripts[i].0.0.clone();
+                    v.push(0xac);
+                    Script(zcash_script::script::Code(v))
+                };
+                let (code, spk) = if tx.version().has_orchard() { (&decoy, &ctx.scripts[i]) } else { (&ctx.scripts[i], &decoy) };
+                let si = zcash_transparent::sighash::SignableInput::from_parts(b, st, i, code, spk, ctx.amounts[i]).expect("index in range");
                 let h = signature_hash(&data, &SignableInput::Transparent(si), &parts);
                 d.transparent.push((i, ht, *h.as_ref()));
             }
